@@ -319,6 +319,8 @@ class Ctx:
             "known_findings": list(known),
         }
         cov.update(self.extra)
+        if self.notes:
+            cov["notes"] = list(self.notes)
         if error:
             cov["analysis_error"] = error
         ev = {
